@@ -9,6 +9,10 @@ import vlib
 RANDOMIZED = ["Randomized-0", "Randomized-ALPN-0", "Randomized-NoALPN-0"]
 
 
+EXPLICIT = {}     # batch name -> number of compared hellos with an explicit, non-BoringSSL padding length (counted by TLC)
+PADLENS = [1, 17, 200, 512]
+
+
 def validate(ctx, rows, name):
     mod = "Dicttls_Trace_" + name
     src = open(ctx.scratch + "/Dicttls_Trace.tla").read().replace("c32_trace.ndjson", name + ".ndjson").replace(
@@ -20,6 +24,8 @@ def validate(ctx, rows, name):
     if not done or done[0] != len(rows):
         raise vlib.Machinery("C32 trace validation did not reach the end of batch %s: %r\n%s" % (name, done, res.out[-2000:]))
     cmp_ = res.tagged("COMPARED")
+    exp_ = res.tagged("EXPLICITPAD")
+    EXPLICIT[name] = exp_[0] if exp_ else 0
     return [(r[0], r[1]) for r in res.tagged("REJ")], (cmp_[0] if cmp_ else 0)
 
 
@@ -28,7 +34,8 @@ def sig_of(why):
         return "dict:%s:%s" % (why[1], ",".join(str(v) for v in sorted(why[2]))) + ("" if why[3] else ":not-a-function")
     if why[0] == "json":
         r = why[2]
-        return "json:%s:%s" % (why[1], r if isinstance(r, str) else ":".join(str(x) for x in r))
+        pad = ":padlen=%d" % why[3] if len(why) > 3 and why[3] else ""
+        return "json:%s%s:%s" % (why[1], pad, r if isinstance(r, str) else ":".join(str(x) for x in r))
     return str(why[0])
 
 
@@ -39,6 +46,14 @@ def run(ctx):
     jh = ctx.drv("jsonhellos", {"ids": ids, "n": n, "sni": "example.com"}, prog="gen", timeout=1200)
     jh += ctx.drv("jsonhellos", {"ids": ids[ctx.seed % 3::3], "n": 1 if ctx.quick else 6,
                                  "sni": "a-rather-long-server-name.subdomain.of.some.example-domain.org"}, prog="gen", name="jh2", timeout=1200)
+    # explicit padding lengths: the described hello is the parrot's hello with its padding extension set to 1/17/200/512
+    # bytes (hellos shorter than 256, within 256..511 and longer than 511 bytes without padding; two SNI lengths)
+    pad_ids = ids if not ctx.quick else ids[ctx.seed % 2::2]
+    jh += ctx.drv("jsonhellos", {"ids": pad_ids, "n": 0, "sni": "example.com", "padlens": PADLENS}, prog="gen", name="jh4", timeout=1200)
+    jh += ctx.drv("jsonhellos", {"ids": pad_ids, "n": 0, "sni": "a-rather-long-server-name.subdomain.of.some.example-domain.org",
+                                 "padlens": PADLENS}, prog="gen", name="jh5", timeout=1200)
+    long_sni = ".".join(["w" * 60, "x" * 60, "y" * 60, "z" * 50, "example.com"])      # pushes mid-size hellos above 511 bytes
+    jh += ctx.drv("jsonhellos", {"ids": pad_ids, "n": 1, "sni": long_sni, "padlens": PADLENS}, prog="gen", name="jh6", timeout=1200)
     jh += ctx.drv("jsonhellos", {"ids": RANDOMIZED, "n": 40 if ctx.quick else 400, "sni": "example.com"}, prog="gen", name="jh3", timeout=1200)
     nsh = 4 if ctx.quick else 12
     per = (len(jh) + nsh - 1) // nsh
@@ -56,6 +71,14 @@ def run(ctx):
             if ev["ev"] == "Dict" and k > 0:
                 continue                      # the same table dump is judged in every shard
             rejected.setdefault(sig_of(why), []).append((ev, why))
+    explicit = sum(EXPLICIT.get("c32_s%d" % k, 0) for k in range(len(parts)))
+    unp = {"short": 0, "mid": 0, "long": 0}
+    for e in jh:
+        if e.get("padlen") and not e["renderr"] and e["b"]:
+            u = len(e["orig"]) - 4 - e["padlen"]
+            unp["short" if u < 256 else "mid" if u < 512 else "long"] += 1
+    if explicit < 3 * len(PADLENS) or min(unp.values()) < len(PADLENS):
+        raise vlib.Machinery("C32 vacuity: explicit padding lengths not exercised (non-BoringSSL cases counted by TLC: %d; by unpadded size: %r)" % (explicit, unp))
     if compared < len(ids):
         raise vlib.Machinery("C32 vacuity: only %d hellos were describable in JSON and compared (parrots: %d)" % (compared, len(ids)))
     nentries = sum(len(d["vi"]) for d in dicts)
@@ -81,23 +104,38 @@ def run(ctx):
     if got != want:
         raise vlib.Machinery("C32 binding canary: TLC rejected %r, expected %r (%r)" % (got, want, crej))
 
-    # ---- reproduce and report
+    # ---- reproduce (all rejected cases re-run in one batch per server name, judged again by TLC) and report
+    resigs = set()
+    if rejected:
+        rows = list(ctx.drv("dicts", {}, prog="gen", name="dicts_again"))
+        ndict = len(rows)
+        by_sni = {}
+        for sig, items in rejected.items():
+            for ev, why in items:
+                if ev["ev"] == "JsonHello":
+                    g = by_sni.setdefault(bytes(ev["sni"]).decode(), {"ids": set(), "pads": set(), "plain": False})
+                    g["ids"].add(ev["id"])
+                    if ev.get("padlen"):
+                        g["pads"].add(ev["padlen"])
+                    else:
+                        g["plain"] = True
+        for k, (sni, g) in enumerate(sorted(by_sni.items())):
+            rows += ctx.drv("jsonhellos", {"ids": sorted(g["ids"]), "n": 4 if g["plain"] else 0, "sni": sni, "padlens": sorted(g["pads"])},
+                            prog="gen", name="jh_again%d" % k, timeout=1200)
+        rj, _ = validate(ctx, rows, "c32_again")
+        resigs = {sig_of(w) for _, w in rj}
     for sig, items in sorted(rejected.items()):
         ev, why = items[0]
+        if sig not in resigs:
+            raise vlib.Machinery("C32: rejection %s was not reproduced on a fresh run" % sig)
         if ev["ev"] == "Dict":
-            again = [d for d in ctx.drv("dicts", {}, prog="gen", name="dicts_again") if d["table"] == ev["table"]]
-            rows = again
             replay = {"table": ev["table"], "unresolved_values": sorted(why[2]),
                       "names": [bytes(x["n"]).decode() for x in ev["vi"] if int.from_bytes(bytes(x["v"]), "big") in why[2]]}
         else:
-            again = ctx.drv("jsonhellos", {"ids": [ev["id"]], "n": 4, "sni": bytes(ev["sni"]).decode()}, prog="gen", name="jh_again")
-            rows = dicts + again
-            replay = {"id": ev["id"], "why": why[2], "orig_hex": bytes(ev["orig"]).hex(), "json": bytes(ev["json"]).decode(),
+            replay = {"id": ev["id"], "why": why[2], "padlen": ev.get("padlen", 0), "sni": bytes(ev["sni"]).decode(),
+                      "orig_hex": bytes(ev["orig"]).hex(), "json": bytes(ev["json"]).decode(),
                       "renderr": ev["renderr"], "jsonerr": ev["jsonerr"], "rawerr": ev["rawerr"],
                       "a_hex": bytes(ev["a"]).hex(), "b_hex": bytes(ev["b"]).hex()}
-        rj, _ = validate(ctx, rows, "c32_again")
-        if sig not in {sig_of(w) for _, w in rj}:
-            raise vlib.Machinery("C32: rejection %s was not reproduced on a fresh run" % sig)
         ctx.finding(sig, "rejected by spec/Dicttls.tla: %s (%d case(s))" % (json.dumps(why), len(items)), replay)
 
     undescribed = {}
@@ -108,7 +146,8 @@ def run(ctx):
            "rule": "evaluations = entries of the value-indexed tables resolved through their name-indexed twin (exhaustive over %d table pairs) + parrot/randomized wire hellos put through raw import and JSON import; distinct = table entries + ClientHelloIDs whose JSON-built hello was compared with the raw-import hello" % len(dicts),
            "samples": [{"table": dicts[0]["table"], "first_entry": {"value": int.from_bytes(bytes(dicts[0]["vi"][0]["v"]), "big"), "name": bytes(dicts[0]["vi"][0]["n"]).decode()}},
                        {"id": good["id"], "json": bytes(good["json"]).decode()[:400]}],
-           "tables": len(dicts), "table_entries": nentries, "hellos": len(jh), "hellos_compared": compared,
+           "tables": len(dicts), "table_entries": nentries, "hellos": len(jh), "hellos_compared": compared, "explicit_padding_lengths": PADLENS, "explicit_non_boring_padding_compared": explicit,
+           "explicit_padding_by_unpadded_size": unp,
            "not_describable_in_json": {k: sorted(v) for k, v in undescribed.items()},
            "exhaustive": False, "exhaustive_part": "all entries of all %d exported table pairs" % len(dicts)}
     return "model_checking", cov, [
